@@ -94,6 +94,12 @@ func (w *webWriter) WriteHeader(code int) {
 
 func (w *webWriter) Flush() {
 	if w.wroteHeader || w.wroteResp {
+		if c, ok := w.resp.(io.Closer); ok {
+			// grpc-web-text: emit the buffered partial quantum (padded) so
+			// that everything written so far can be decoded by the client.
+			c.Close() //nolint
+			w.resp = base64.NewEncoder(base64.StdEncoding, w.w)
+		}
 		if f, ok := w.w.(http.Flusher); ok {
 			f.Flush()
 		}
